@@ -116,8 +116,11 @@ class Backend:
         {i: {k: v.copy() for k, v in e.items()} for i, e in self.spec})
     if self.kind == 'subset':
       # the generic subset wrapper over all ids: same mapping, its own
-      # shuffled_clients implementation
-      return fedjax.SubsetFederatedData(mem, [i for i, _ in self.spec])
+      # shuffled_clients implementation.  The id list (an Iterable[ClientId])
+      # is in reverse order and names every other id a second time, as the
+      # concatenation of two overlapping id groups would.
+      ids = [i for i, _ in self.spec]
+      return fedjax.SubsetFederatedData(mem, ids[::-1] + ids[::2])
     return mem
 
   def __exit__(self, *exc):
@@ -471,7 +474,7 @@ def history_strategy(draw, tier):
     ops.append(['sample'])
     sampled.append(cur)
     cur += 1
-  return {'backend': draw(st.sampled_from(['memory', 'memory', 'sqlite'])),
+  return {'backend': draw(st.sampled_from(['memory', 'memory', 'sqlite', 'subset'])),
           'clients': clients, 'seed': draw(seed_strategy()),
           'cohort': draw(cohort_strategy(n)), 'start': start, 'ops': ops}
 
@@ -486,7 +489,7 @@ def within_strategy(draw, tier):
   rounds = draw(st.one_of(
       st.lists(round_strategy(), min_size=1, max_size=6),
       st.integers(2, 6).map(lambda k: [min(ROUND_MAX, base + j) for j in range(k)])))
-  return {'backend': draw(st.sampled_from(['memory', 'memory', 'sqlite'])),
+  return {'backend': draw(st.sampled_from(['memory', 'memory', 'sqlite', 'subset'])),
           'clients': clients, 'seed': draw(seed_strategy()),
           'cohort': draw(cohort_strategy(n)),
           'mode': draw(st.sampled_from(['fresh', 'shared'])),
